@@ -20,8 +20,9 @@ RULE = (
     "<=1500 executions each way). Across processes: shards i and i+8 draw "
     "the same cases but run under different PYTHONHASHSEED values; the "
     "parent compares their first outcomes the same way; every corpus "
-    "definition is additionally learned under all 16 hash seeds and "
-    "compared with the outcome under the first. Non-trivial: the "
+    "definition, the 24 directly nested (bunched) fork shapes and every "
+    "fifth nested-fork shape are additionally learned under all 16 hash "
+    "seeds and compared with the outcome under the first. Non-trivial: the "
     "definition has a fork or a loop and the presentation differs from the "
     "enumeration order. One case in ten is a branch-count job set (chain, n "
     "parallel copies of a chain for several n, optional tail - an upstream "
@@ -348,6 +349,16 @@ def run_shard(ctx):
         ctx.count("corpus_runs_for_hash_seed_comparison")
         ctx.bulk["allseeds:" + name] = {"case": case,
                                         "r": list(first_outcome(case))}
+    # directly nested ("bunched") forks and the nested-fork family under
+    # every hash seed as well
+    from vlib import gen
+    for fam_name, fam in (("bunched", gen.bunched_fork_shapes()),
+                          ("forks", gen.fork_shapes()[::5])):
+        for i, (tag, ast) in enumerate(fam):
+            case = {"defn": ps.to_json(ast), "k": 1, "pick": None, "sched": i}
+            ctx.count("shape_runs_for_hash_seed_comparison")
+            ctx.bulk[f"allseeds:{fam_name}:{tag}"] = {
+                "case": case, "r": list(first_outcome(case))}
 
     def fn(case):
         r0 = run_case(case, ctx)
